@@ -90,6 +90,36 @@ func checks() map[string]*Check {
 		NT:     func(r *Result) bool { return cnt(r, "votes_granted") >= 2 && cnt(r, "state.set") >= 4 },
 		Rule:   "non-trivial: at least two granted real votes and four term/vote writes",
 		Assume: clusterAssume})
+	puppetAssume := []string{
+		"puppet layer: one real node (election timeout 3 ms), peers played by the harness; requests strictly sequential, so post-handler samples are exact before/after values",
+		"domain: seed-determined consistent worlds (leader logs over terms 1-3, <= 7 entries, announced commit points respecting leader completeness); requests drawn from the senders' logs (any prev, any prefix of the suffix, leaderCommit <= what that leader announced), duplicates, stale terms, optional compacted prefix via a real InstallSnapshot, optional crash+restart between any two requests",
+	}
+	m["C06"].Runs = append(m["C06"].Runs, RunSpec{Scen: "puppet.ae", Params: "cases=60", Quick: 24, Thorough: 600})
+	m["C06"].NT = func(r *Result) bool {
+		if r.Scen == "puppet.ae" {
+			return cnt(r, "c06.commit_bound_checks") > 0
+		}
+		return cnt(r, "c06.ae_success") > 0 && cnt(r, "c06.conflict_truncations") > 0
+	}
+	m["C06"].Rule += "; puppet runs: each run = 60 request sequences against a fresh real node, non-trivial when the exact commit-bound clause was evaluated"
+	m["C06"].Assume = append(m["C06"].Assume, puppetAssume...)
+	m["C08"].Runs = append(m["C08"].Runs, RunSpec{Scen: "puppet.rv", Params: "cases=30", Quick: 24, Thorough: 600})
+	m["C08"].NT = func(r *Result) bool {
+		if r.Scen == "puppet.rv" {
+			return cnt(r, "msg.RV") > 0 && cnt(r, "node.crash") > 0
+		}
+		return cnt(r, "votes_granted") >= 2 && cnt(r, "state.set") >= 4
+	}
+	m["C08"].Rule += "; puppet runs: each run = 30 stimulus sequences (vote requests over relative terms -1..+2, two candidates, five log comparisons, prevote on/off, interposed same/higher-term heartbeats, crash+restart after any step, inside/outside the recent-contact window) against a node driven into follower / pre-candidate / candidate"
+	m["C08"].Assume = append(m["C08"].Assume, puppetAssume...)
+	add(&Check{ID: "C11", Level: "exploration", Props: []string{"C11"},
+		Runs: []RunSpec{
+			{Scen: "puppet.is", Params: "cases=30", Quick: 32, Thorough: 800},
+		},
+		NT:     func(r *Result) bool { return cnt(r, "c11.probes") > 0 && cnt(r, "msg.IS") > 0 },
+		Rule:   "puppet runs: each run = 30 InstallSnapshot sequences (two source snapshots, 1-3 chunks each, any order / duplication / wrong offsets, term lower/equal/higher, crash+restart) against a fresh real node with follower log shorter/longer/conflicting/matching at the boundary, followed by replication and vote probes whose correct answer follows from the true log; non-trivial when installs and probes happened",
+		Assume: puppetAssume})
+
 	storeAssume := []string{
 		"crash model: process death — every completed write(2) persists, in order; images are synthesised by replaying the strace-recorded syscalls (self-validated: the full replay must be byte-identical to the directory the workload left)",
 		"byte prefixes of a write: all when <= 128 bytes, else the first/last 8 and every 64th",
